@@ -93,7 +93,7 @@ def weights_ok(recipe) -> bool:
 
 
 def run_recipe(acc: Acc, group: str, label: str, recipe: dict, aliases, formatted_too: bool) -> None:
-    E = R.build(recipe)
+    E = R.build(recipe, flags_by_assignment=True)  # the rebuilt engine E' goes through the constructors
     n_in = len(recipe["inputs"])
     base_outputs = None
     for alias, mode in itertools.product(aliases, ("repr", "encapsulated")):
@@ -179,6 +179,10 @@ def standalone_components():
     out.append(("term", fl.Discrete("d", fl.Discrete.to_xy([k / 11 for k in range(12)], [(k % 3) / 2 for k in range(12)]), 0.5)))
     out.append(("engine-variable", fl.InputVariable("v", "long " * 40, True, 0.0, 1.0, False, [fl.Triangle(f"t{k}", 0.0, k / 9, 1.0) for k in range(9)])))
     out += [("term", fl.Triangle("t", 0.0, 0.5, 1.0, h)) for h in (2.0, 1.5, 1.0009)]
+    # NaN vertices and the two-argument short forms (the constructors rewrite the vertices)
+    out += [("term", fl.Trapezoid("t", NAN, 1.0, NAN, 2.0)), ("term", fl.Trapezoid("t", NAN, 1.0)), ("term", fl.Trapezoid("t", 0.0, 1.0)),
+            ("term", fl.Triangle("t", NAN, 1.0)), ("term", fl.Triangle("t", 0.0, 1.0)), ("term", fl.Triangle("t", NAN, NAN, 1.0)),
+            ("term", fl.Trapezoid("t", 0.0, NAN, 1.0, NAN))]
     out.append(("aggregated", fl.Aggregated("o", -1.0, 1 / 3, fl.Maximum(), [fl.Activated(fl.Constant("k", 1.5), 0.5, fl.AlgebraicProduct())])))
     out.append(("aggregated", fl.Aggregated("o", NAN, INF, None, [])))
     out.append(("engine-variable", fl.InputVariable("v", "it's a \"quoted\" \\ description", False, -INF, 1 / 3, True, [fl.Ramp("r", 1 / 3, 0.0)])))
